@@ -84,7 +84,11 @@ fn gen_builder_fault(ctx: &GenCtx) -> Vec<Value> {
             let mut cfg = workload::plan_cfg(&mut p, ctx.tier == Tier::Thorough, false);
             cfg["source"] = json!("reader");
             let sweep = p.chance(2, 3);
-            let payload = workload::plan_payload(&mut p, &cfg, if sweep { 2048 } else { 40_000 });
+            let mut payload = workload::plan_payload(&mut p, &cfg, if sweep { 2048 } else { 40_000 });
+            if jstr(&cfg, "data_mode") == "utf8" && p.chance(1, 3) {
+                // text the builder must refuse: an illegal line ending, or a multi-octet character cut short
+                payload = json!({"gen": *p.pick(&["utf8defect", "utf8trunc"]), "len": p.range(4, 200), "key": p.u64()});
+            }
             let kinds: Vec<&str> = vec!["interrupted", *p.pick(&HARD_KINDS), "zero"];
             json!({"cfg": cfg, "payload": payload, "src_sched": p.sched().to_json(), "sink_sched": p.sched().to_json(),
                    "sweep": sweep, "kinds": kinds, "persist": p.chance(1,3), "pick": p.u64()})
@@ -178,6 +182,38 @@ fn run_builder(plan: &Value, rec: &mut Rec) {
         return;
     }
     if !ref_ok {
+        // The input itself is refused (illegal text for the data mode).  A transient Interrupted on a source
+        // read - retried by the library's fill loops - must not turn that refusal into a success.
+        let calls = base.src.calls as usize;
+        let pts: Vec<usize> = match only {
+            Some(o) => vec![Fault::from_json(o).at_call.unwrap_or(0)],
+            None if kinds.iter().any(|k| k == "interrupted") => (0..calls.min(60)).collect(),
+            None => vec![],
+        };
+        for k in pts {
+            let f = Fault { at_call: Some(k), at_byte: None, op: "read".into(), kind: "interrupted".into(), persist: false };
+            let run = do_build(cfg, &payload, src_sched.clone(), sink_sched.clone(), &[f.clone()]);
+            let fired = !run.src.fired.is_empty();
+            let mut h = Fnv(shape);
+            h.u64(run.src.hash.0);
+            h.str(&f.label());
+            rec.eval(h.0 ^ 0x77, fired);
+            if fired {
+                rec.count("fault:F-eintr:read:on-refused-input");
+            }
+            let mut vplan = plan.clone();
+            vplan["only"] = f.to_json();
+            match &run.result {
+                Err(p) => rec.violation("panic", &norm_loc(&p.loc), format!("builder panicked after an Interrupted on source call {k}: {}", p.msg), vplan),
+                Ok(Ok(())) if fired => rec.violation(
+                    "result-differs",
+                    "builder:read",
+                    format!("the input is refused without faults ({:?}); with a single Interrupted on source call {k} the build succeeds ({} octets written)", reference.result, run.out.len()),
+                    vplan,
+                ),
+                _ => {}
+            }
+        }
         return;
     }
     let mut cases: Vec<Fault> = Vec::new();
